@@ -816,3 +816,8 @@ pub fn replay(part: &str, case: &Value, c13: bool) -> Result<(), String> {
     let c: HistoryCase = serde_json::from_value(case.clone()).map_err(|e| format!("bad case: {e}"))?;
     check_history(&c, mode, &mut st)
 }
+
+/// the C12 operation alphabet, reused by C08 to produce random prior traffic
+pub fn hop_for_c08(own: u16, others: Vec<u16>) -> impl Strategy<Value = HOp> {
+    hop_strategy(own, others)
+}
